@@ -48,7 +48,7 @@ CHECKS = {
             "Every partition of every short frame list (all 2^(L-1) chunkings, L up to 15 quick / 19 thorough, two content "
             "modes incl. header-looking payloads) plus random streams up to 16 MiB frames are pushed through the real "
             "YowNoiseSegmentsLayer; a probe above must see exactly the sent frames, a probe below exactly len3+payload. "
-            "Exhaustive for short streams, sampled above; that is as much as executions can give for an unbounded input space.",
+            "Exhaustive for short streams, sampled above; that is as much as executions can give for an unbounded input space. Reconnect cases: a stream is cut at a random byte, the 'disconnected' announcement is emitted the way the network layer does (detached, from the layer directly below) and the next stream follows before the stack's loop turns; exactly the complete frames before the cut and all later frames must come out.",
             "Trusted: the probe layers and the list comparison. Frames are non-empty. Single-threaded delivery (one network thread).",
             "DESIGN.md 4/C05"),
     "C15": ("exploration",
@@ -56,7 +56,7 @@ CHECKS = {
             "Every plaintext length 0..64 (thorough 0..160) x 4 kinds x 8-24 random keys, plus random lengths to 1 MiB, is "
             "encrypted and decrypted by the real MediaCipher (generic and per-kind wrappers) and compared with an independent "
             "implementation of the WhatsApp layout; for every length 0..64 every byte position of ciphertext+tag is flipped "
-            "(3 patterns quick, all 255 for <=32 B thorough), every truncation, wrong key and the 3 wrong kinds must raise.",
+            "(3 patterns quick, all 255 for <=32 B thorough), every truncation, wrong key and the 3 wrong kinds must raise. Consumer path: incoming media entities are handed to the demos' SinkWorker with the download replaced by the ciphertext (tqdm/requests stubbed): the stored file must equal the original, empty files included, tampered downloads store nothing.",
             "Trusted: cryptography's AES-CBC, hashlib HMAC, the frozen real-world vector that anchors the reference. Random keys sampled.",
             "DESIGN.md 4/C15"),
     "C20": ("exploration",
@@ -64,7 +64,7 @@ CHECKS = {
             "Tokens for digit strings of every length 1..20 and generated unicode phone strings are compared with an independent "
             "HMAC-SHA1; every single byte / Latin-1 char / a spread of code points and generated str/bytes/int values must "
             "percent-decode to the original; generated parameter lists and the three real request classes (preview mode, "
-            "sendRequest intercepted, harness recipient key) must decrypt to the encoded parameters in order under distinct ephemeral keys.",
+            "sendRequest intercepted, harness recipient key) must decrypt to the encoded parameters in order under distinct ephemeral keys. Tokens for different numbers are also computed concurrently by 2-4 threads on the process-wide environment object with yield injection inside yowsup/env.",
             "Trusted: frozen copies of the three token constants, hmac/urllib/cryptography. Input space sampled.",
             "DESIGN.md 4/C20"),
     "C18": ("exploration",
@@ -84,7 +84,7 @@ CHECKS = {
             "save(dest=), config_to_str+file and YowProfile.write_config, loaded by path with/without extension and by profile "
             "name, profile directory existing or not. Crash points: every Python line of the save path, the file open, every "
             "7-byte chunk reaching the OS, close and rename are enumerated completely for each sampled save; a forked child is "
-            "killed there and the parent requires load() to return the previous or the new configuration. The previous configuration is either config.json or a key=value config.yo in the profile directory.",
+            "killed there and the parent requires load() to return the previous or the new configuration. The previous configuration is either config.json or a key=value config.yo in the profile directory. JSON values include lone surrogates.",
             "Trusted: os.rename atomicity and the filesystem; process death only (no power loss). Saves to enumerate are sampled, their crash points are complete.",
             "DESIGN.md 4/C19"),
     "C13": ("fault_enumeration",
@@ -105,7 +105,7 @@ CHECKS = {
             "to depth 3) go through message_to_protobytes/protobytes_to_message and through the message entity classes; a "
             "reflective comparator walks the public properties of the attribute classes and requires every field the sender set "
             "to come back equal. In the other direction protobuf payloads built directly with generated fields are parsed and "
-            "re-serialised and compared on the fields the library models.",
+            "re-serialised and compared on the fields the library models. Entities are also re-composed: after a first serialisation every field is changed through its property and the second payload must carry the new content.",
             "Trusted: protobuf runtime; field types read from the generated descriptors. Unset fields may come back as defaults (counted).",
             "DESIGN.md 4/C10"),
     "C04": ("exploration",
@@ -117,7 +117,7 @@ CHECKS = {
             "plain, cut-off-then-retry, cut-inside-reply-then-retry, reconnect-after-transport, corrupted reply (must surface "
             "as <failure> + event, not hang). The responder checks the presented account/passive/push name/user agent and "
             "decrypts client frames strictly in counter order; server frames glued to the reply and random traffic both ways "
-            "must arrive intact and in order; the stored profile must hold a changed server key. Interleavings are sampled. A completion-race sweep holds the handshake worker inside its last write and releases it at line event k (every k) of the network thread's delivery of the first transport frames; frames sent around completion must be up before anything else is sent (a stranded frame with all threads idle is a violation).",
+            "must arrive intact and in order; the stored profile must hold a changed server key. Interleavings are sampled. A completion-race sweep holds the handshake worker inside its last write and releases it at line event k (every k) of the network thread's delivery of the first transport frames; frames sent around completion must be up before anything else is sent (a stranded frame with all threads idle is a violation). History relogin-after-server-failure: <failure/> after the handshake, the layer above closes the connection from inside that delivery, a partial further frame follows in the same segment, then a new login.",
             "Trusted: dissononce/consonance (with the randint shim), the responder double. Hang = stable blocked state, a bare timeout is inconclusive.",
             "DESIGN.md 4/C04"),
     "C11": ("exploration",
@@ -133,7 +133,7 @@ CHECKS = {
             "asyncore dispatchers over loopback TCP against a server thread (Noise responder per connection), with statement-"
             "level yield injection inside the dispatchers and asyncore: the bytes read from the peer's socket must equal, byte "
             "for byte, what the stack handed to the network layer (this also judges the handshake thread's writes against the "
-            "asyncore loop's), every frame must decrypt in counter order and every stanza id arrive exactly once.",
+            "asyncore loop's), every frame must decrypt in counter order and every stanza id arrive exactly once. A quarter of the probe-level runs start their senders during the handshake (a refusal reported to the sender is fine; whatever is accepted must arrive once, in counter order).",
             "Trusted: dissononce cipher states of the peer. In the probe-level runs senders start after the handshake (C04 covers the handshake thread's writes there).",
             "DESIGN.md 4/C11"),
     "C14": ("exploration",
@@ -154,7 +154,7 @@ CHECKS = {
             "After every event the harness asks the observer's store which of the contact's identities it trusts: once the two "
             "have exchanged a message a pin must exist; without automatic trust it must stay the first identity, no message from "
             "or for the new identity may be delivered; with automatic trust the pin moves forward only and the last message of "
-            "each direction after the change must arrive. Mutants (trust check always true, default on) are caught. Histories include first messages that stay undecryptable on every retransmission (identity presented, no session), the server double giving up after three.",
+            "each direction after the change must arrive. Mutants (trust check always true, default on) are caught. Histories include first messages that stay undecryptable on every retransmission (identity presented, no session), the server double giving up after three. In half of the histories the server double sends identity-change notifications to the other accounts when an account re-registers.",
             "Trusted: the server double (drops the old installation's keys on re-registration). Histories sampled.",
             "DESIGN.md 4/C17"),
     "C12": ("fault_enumeration",
@@ -184,7 +184,7 @@ CHECKS = {
             "dispatchers over loopback TCP (peer close, local disconnect, refused connect, stream error with automatic "
             "reconnect, re-login after the network thread ended, immediate re-login from another thread while the first "
             "connect() has not returned, login failure), with yield injection inside the dispatchers; judged on announcement "
-            "counts, network-thread termination, no spurious close, resumed (IK) handshake, exceptions in network threads.",
+            "counts, network-thread termination, no spurious close, resumed (IK) handshake, exceptions in network threads. Real dispatchers: ECONNRESET is injected into the next socket write of the socket and asyncore dispatchers over loopback; the failing send and a later send from another thread must return, no lock may stay held (layer locks and the dispatcher's), the connection is announced down once and a reconnect logs in and carries a stanza. Further events: the connection going down at line event k of the keep-alive thread's step (random k in histories; k=1..20 as scripted sweeps followed by a relogin with every ping answered), a partial further frame behind a connection-ending stanza, a connect request before the stack's loop has delivered the previous 'disconnected' announcement (judged), the new connection even coming up before that (known finding reconnect-up-before-loop-turn), and for asyncore a disconnect() placed between the loop's descriptor collection and its select().",
             "Trusted: the reference machine (our reading of the statement), scripted dispatcher, loopback server thread. First login (key upload, reconnect) precedes the judged history.",
             "DESIGN.md 4/C16"),
     "C09": ("exploration",
@@ -194,7 +194,7 @@ CHECKS = {
             "without a fixture are converted to their entity and back (300 draws per class quick, 6 000 thorough) and compared "
             "with a strict comparator (numbers by value; protobuf payloads field-wise). 34 application/library-sendable entity "
             "constructors with generated arguments plus generated message entities are serialised and pushed through the "
-            "library encoder, the library decoder and the independent reference decoder. Optional fields: for every receive-side class (a layer or a receive-side entity parses with it) each field is unset / an unset field is set, and when the class's own serialiser answers with pure deletions/additions that stanza must make the same round trip (an absent attribute written back as its default is accepted).",
+            "library encoder, the library decoder and the independent reference decoder. Optional fields: for every receive-side class (a layer or a receive-side entity parses with it) each field is unset / an unset field is set, and when the class's own serialiser answers with pure deletions/additions that stanza must make the same round trip (an absent attribute written back as its default is accepted). Key results mix complete and incomplete users in every order: complete users unchanged, incomplete ones (and only those) reported as errors.",
             "Trusted: vf/catalogue.py (our transcription of the documented shapes), vf/refcodec.py. Enumeration-valued attributes keep the documented literal.",
             "DESIGN.md 4/C09"),
     "C06": ("exploration",
@@ -205,7 +205,7 @@ CHECKS = {
             "presence, chat state, picture/status/contact/group notifications, calls, ib, success/failure/stream error/features) "
             "are injected at the bottom with generated values (25 draws per cell quick, 500 thorough). Exactly one stanza equal "
             "to the entity's serialisation / one entity of the documented class re-serialising to the stanza is required when "
-            "the owning module is selected, nothing and no exception otherwise. The kind x selection x wiring matrix is complete; values are sampled. All cases of one stack run interleaved in a seeded random order; a reach monitor requires an outgoing kind for every (layer, tag) send handler found in the assembled stack.",
+            "the owning module is selected, nothing and no exception otherwise. The kind x selection x wiring matrix is complete; values are sampled. All cases of one stack run interleaved in a seeded random order; a reach monitor requires an outgoing kind for every (layer, tag) send handler found in the assembled stack. Reply rounds: requests of every kind sent without callbacks, then their result/error replies in random order while others are outstanding: each reply must produce exactly one entity at the top.",
             "Trusted: the ownership rule (package defining the entity class) and vf/catalogue.py. iq replies are C08's, encrypted stanzas C03's.",
             "DESIGN.md 4/C06"),
     "C07": ("exploration",
@@ -215,7 +215,7 @@ CHECKS = {
             "payload, unknown media type, media-typed without media type, supported media with the media module left out) are "
             "injected into a stack of bottom probe + axolotl control/send/receive + protocol group for each of the 16 module "
             "selections (40 draws per cell quick, 1 500 thorough). Exactly one ack/receipt/pong with the stanza's id, class, "
-            "type, sender, participant (absent when absent) and call id must be sent down. Four seeded mutants are caught.",
+            "type, sender, participant (absent when absent) and call id must be sent down. Four seeded mutants are caught. Encrypt-count notifications carry values over the whole range (0, 9, 10, 11, 100, 811, 812, random).",
             "Trusted: our reading of the required answer shapes. Kinds x selections complete, values sampled.",
             "DESIGN.md 4/C07"),
     "C08": ("exploration",
